@@ -67,12 +67,10 @@ func (r *ComDoc) writeSector(sector SecID, content []byte) error {
 
 // Mark a chain of sectors as free
 func freeSectors(sat []SecID, sector SecID) {
-	for {
+	// an empty stream has no sectors, and a corrupt chain may leave the table
+	for sector >= 0 && int(sector) < len(sat) {
 		nextSector := sat[sector]
 		sat[sector] = SecIDFree
-		if nextSector < 0 {
-			break
-		}
 		sector = nextSector
 	}
 }
